@@ -6,7 +6,7 @@
    and of who was observed queued, in arrival order - it never runs the model (no `notify`, no `cur`). *)
 From Coq Require Import ZArith List Lia Bool Arith.
 Require Import Cases_Common.
-Require Export Semap C01_Model.
+Require Export Semap C01_Model C01_Options.
 Import ListNotations.
 Open Scope Z_scope.
 
